@@ -61,6 +61,7 @@ HOLES = [
     ("elif-body", "{% if f %}a{% elif t %}{{ E }}{% endif %}"),
     ("for-iter", "{% for V in E %}{{ V }}{% endfor %}"), ("for-iter-pair", "{% for V, y in E %}{{ y }}{% endfor %}"),
     ("for-iter-pair2", "{% for y, V in E %}{{ y }}{% endfor %}"),
+    ("for-iter-other-target", "{% for y in E %}{{ y }}{% endfor %}"),
     ("for-filter", "{% for y in l if E %}{{ y }}{% endfor %}"), ("for-filter-target", "{% for V in l if E %}{{ V }}{% endfor %}"),
     ("for-body", "{% for y in l %}{{ E }}{% endfor %}"), ("for-body-target", "{% for V in l %}{{ E }}{% endfor %}"),
     ("for-else", "{% for y in [] %}b{% else %}{{ E }}{% endfor %}"), ("for-else-target", "{% for V in [] %}b{% else %}{{ E }}{% endfor %}"),
@@ -68,7 +69,7 @@ HOLES = [
     ("for-nested-iter", "{% for y in l %}{% for V in E %}c{% endfor %}{% endfor %}"),
     ("for-nested-filter", "{% for y in l %}{% for z in l if E %}c{% endfor %}{% endfor %}"),
     ("set", "{% set V = E %}"), ("set-then-read", "{% set V = E %}{{ V }}"), ("set-tuple", "{% set V, y = E %}"),
-    ("set-attr-base", "{% set V.a = 1 %}{{ E }}"), ("set-attr-value", "{% set ns = namespace() %}{% set ns.a = E %}"),
+    ("set-attr-base", "{% set V.a = E %}"), ("set-attr-base-const", "{% set V.a = 1 %}"), ("set-attr-value", "{% set ns = namespace() %}{% set ns.a = E %}"),
     ("set-twice", "{% set V = 1 %}{% set V = E %}"),
     ("set-in-if-then-read", "{% if f %}{% set V = 1 %}{% endif %}{{ E }}"),
     ("set-in-else-then-read", "{% if t %}a{% else %}{% set V = 1 %}{% endif %}{{ E }}"),
@@ -150,7 +151,12 @@ def construct_cases(thorough):
                 for cl, extra in ctxs(v):
                     c = dict(BASE_CTX); c.update(extra)
                     out.append((hl, fl, v, cl, inst(ht, fs, v), c))
-    return out
+    seen, ded = set(), []
+    for c in out:                                   # positions without an expression give the same template for every form
+        k = (c[4], json.dumps(c[5], sort_keys=True))
+        if k not in seen:
+            seen.add(k); ded.append(c)
+    return ded
 
 
 def missing_of(r):
@@ -442,7 +448,7 @@ def main():
     kentry = chk.match_known(lambda k: k["id"] == "debug-info-lookups")
 
     # ---------------- leg 2: generated programs ------------------------------------------------------
-    n = 40000 if chk.thorough else 3000
+    n = 200000 if chk.thorough else 3000
     progs = gen_programs(chk, n)
     preqs, cases, NN = [], [], []
     for body, ctx in progs:
@@ -504,7 +510,9 @@ def main():
                        "compared with the extracted analysis and interpreter; non-trivial = distinct (template, context) that compiled and whose render asked the context for at least one key (programs: >= 3 statement nodes)")
     chk.cov["samples"] = [cc[0][4], cc[len(cc) // 3][4], cc[2 * len(cc) // 3][4], preqs[0]["tpl"], preqs[len(preqs) // 2]["tpl"]]
     chk.cov["distribution"] = {"outcomes": dict(hist), "constructs_in_programs": dict(kinds)}
-    chk.cov["programs"] = {"n": len(progs), "pre_fix_tracker_reports_differently": old_differs, "direct_violations": len(direct),
+    chk.cov["programs"] = len(progs)
+    chk.cov["disagreements_checked"] = len(corr_bad) + len(direct)
+    chk.cov["program_leg"] = {"n": len(progs), "pre_fix_tracker_reports_differently": old_differs, "direct_violations": len(direct),
                            "model_vs_engine_disagreements": len(corr_bad), "debug_info_only_lookups": len(dbg_only)}
     chk.cov["kernel_crosscheck"] = {"cases": len(small), "agree": kern_ok}
 
